@@ -107,6 +107,9 @@ func (e *Enc) fail(format string, a ...interface{}) {
 // declare introduces a fresh constant.
 func (e *Enc) declare(hint string, s Sort) Term {
 	hint = sanitize(hint)
+	if _, clash := e.U.funs[hint]; clash || reservedNames[hint] {
+		hint = "c." + hint
+	}
 	n := e.names[hint]
 	e.names[hint] = n + 1
 	name := hint
@@ -127,6 +130,8 @@ func (e *Enc) define(hint string, t Term) Term {
 	e.defs[c.S] = t
 	return c
 }
+
+var reservedNames = map[string]bool{"itoa": true, "atoi": true, "slen": true, "sbyte": true, "ssub": true, "sconcat": true, "select": true, "store": true, "and": true, "or": true, "not": true, "ite": true, "div": true, "mod": true, "abs": true, "true": true, "false": true, "let": true, "forall": true, "exists": true, "as": true, "distinct": true}
 
 func isAtom(s string) bool {
 	return !strings.ContainsAny(s, "( ")
